@@ -242,7 +242,7 @@ func runC01(c *rt.Ctx) {
 		years = append(years, p-1, p, p+1)
 	}
 	years = append(years, 999999999, 999999998, 500000000, 123456789, 100004, 99996, 400000, 400004)
-	nSeeded := c.Pick(20000, 400000)
+	nSeeded := c.Pick(20000, 2000000)
 	for _, limit := range []int{0, 11, 12, 13, 14, 15} {
 		date.MaxInputLength = limit
 		c.Parallel(fmt.Sprintf("bigyears-%d", limit), 0, func(w *rt.W) {
